@@ -140,7 +140,12 @@ def run(tier, seed):
         head = HEADS[s % len(HEADS)]
         stave = head.startswith("all stave")
         nl = rng.choice([2, 3, 4, 5])
-        _merged, per = streams.conforming(rng, nlinks=nl, nhbf=rng.choice([2, 3]), stave_level=stave)
+        long_gap = (s % 5 == 2)
+        if long_gap:
+            # several reader batches (100 packets each); one unit is silent for more than two whole batches in the middle of a
+            # heartbeat frame and then goes on: its validator must still be the one that saw its earlier packets (seed C06-G)
+            nl = 3
+        _merged, per = streams.conforming(rng, nlinks=nl, nhbf=(rng.choice([30, 40]) if long_gap else rng.choice([2, 3])), stave_level=stave)
         lvl = [0.0] + [rng.choice([0.0, 0.15, 0.4]) for _ in range(nl - 1)]
         if stave:
             per = [[(bytes(bytearray(r[:36]) + struct.pack("<H", rng.randrange(5)) + r[38:]) if rng.random() < l else r, p) for r, p in pk] for pk, l in zip(per, lvl)]
@@ -158,6 +163,14 @@ def run(tier, seed):
                     else:
                         per[j] = [(r[:2] + per[0][0][0][2:4] + r[4:], p) for r, p in per[j]]
         ly = layouts(rng, per)
+        if long_gap:
+            ly = {"round-robin": ly["round-robin"]}
+            for u in (0, 1):
+                # cut unit u inside a heartbeat frame (after a packet that is neither a stop page nor followed by page 0)
+                cands = [k for k in range(2, len(per[u]) - 2) if per[u][k][0][38] == 0 and per[u][k + 1][0][36:38] != b"\x00\x00"]
+                cutk = (rng.choice(cands) if cands else len(per[u]) // 2) + 1
+                others = [(i, k) for i in range(nl) if i != u for k in range(len(per[i]))]
+                ly["long-gap-%d" % u] = [(u, k) for k in range(cutk)] + others + [(u, k) for k in range(cutk, len(per[u]))]
         for name, order in ly.items():
             cd, ranges = place(per, order, start=rng.choice([0, 0x1000]))
             lines.append(("dispatch", rawdata.link_line(head, cd)))
